@@ -37,6 +37,15 @@ CLAIMS = {
         "anchored on published dates checked as invariants; Calendar.tla for civil dates.",
    technique="TLA+ reference calendars model-checked exhaustively by TLC + trace validation of every returned date",
    ref="5/C19"),
+ "C10": dict(
+   text="The IERS leap-second history is a constant of the specification; TLC checks it (and the lookup transcription) "
+        "for every (year, month) 1950..2100, and validates against it, in exact fixed-point arithmetic, the offset between "
+        "Epoch(..., utc=True) and Epoch(...) for every month x 3 days x 3-26 times of day, the utc read-back (1 ms), every "
+        "leap_seconds override 0..60 in both directions, leap_seconds(y, m) itself, and Delta-T for every month -2000..3000.",
+   note="Trusted: TLC; the 27-entry IERS list typed into LeapSeconds.tla (cross-checked by anchors TT-UTC = 42.184 s in "
+        "1972-01, 64.184 s in 2000, 69.184 s in 2017); Fix.tla; float->Fix conversion.",
+   technique="TLA+ IERS step function model-checked by TLC + trace validation with exact fixed-point offsets",
+   ref="5/C10"),
 }
 
 PENDING_REASON = "check not built yet in this round (specification module planned in DESIGN.md section 5); not claimed until its trace specification validates the unchanged tree"
